@@ -21,7 +21,8 @@ ROOT = '/verif'
 sys.path.insert(0, os.path.join(ROOT, 'bin'))
 import nativelib
 BUILD = nativelib.BUILD
-KINDS = ['macro', 'callblock', 'include', 'block', 'macro_include', 'import_macro']
+KINDS = ['macro', 'callblock', 'include', 'block', 'macro_include', 'import_macro', 'import_cycle', 'include_discarded',
+         'include_after_partial', 'macro_after_partial', 'loop_recursive']
 STACK = 2 * 1024 * 1024
 BASE = 96 * 1024      # frames below the first template level (thread start, render entry), measured < 64 KiB
 GUARD = 64 * 1024
@@ -43,8 +44,11 @@ def tool(profile):
 
 
 def measure(profile, kind, limit):
-    p = subprocess.run([tool(profile), 'measure', kind, str(limit)], stdout=subprocess.PIPE, stderr=subprocess.PIPE, text=True, timeout=120)
-    return json.loads(p.stdout.strip().split('\n')[-1])
+    try:
+        p = subprocess.run([tool(profile), 'measure', kind, str(limit)], stdout=subprocess.PIPE, stderr=subprocess.PIPE, text=True, timeout=120)
+        return json.loads(p.stdout.strip().split('\n')[-1])
+    except Exception as e:  # the measuring process died (e.g. unbounded recursion ran through its 256 MiB stack)
+        return dict(kind=kind, limit=limit, levels=0, bytes_per_level=0, error='measurement died: %s' % str(e)[:80], died=True)
 
 
 def run_c11(prop, tier, seed):
@@ -59,7 +63,12 @@ def run_c11(prop, tier, seed):
         for k in KINDS:
             m100, m500 = measure(profile, k, 100), measure(profile, k, 500)
             if 'recursion limit' not in m500['error'] or m500['levels'] <= m100['levels']:
-                ev['problems'].append('engine S: kind %s did not end in the recursion error (%s)' % (k, m500['error'][:80]))
+                # the limit is never reached on this edge: cost 0 units per level; the per-level stack cost is
+                # taken from the run that survived, else from the most expensive edge measured so far.  The ILP
+                # then admits an overflowing mixture and the replay on a 2 MiB thread decides.
+                b = max([m100.get('bytes_per_level', 0), m500.get('bytes_per_level', 0)] + [v['bytes_per_level'] for (pf, _), v in table.items() if pf == profile] + [4096])
+                table[(profile, k)] = dict(bytes_per_level=b, levels_at_500=m500['levels'], levels_at_100=m100['levels'], units_per_level=0.0, c=Fraction(0),
+                                           note='limit not reached: ' + m500['error'][:80])
                 continue
             # additivity check: per-level cost must not depend on the limit
             if abs(m100['bytes_per_level'] - m500['bytes_per_level']) > 64:
